@@ -1,6 +1,6 @@
 """C02 - registration soundness (RP expectations enforced for every format)."""
 import json, itertools
-from harness import fw, impl, authsim, regsim, regcat, regrun
+from harness import authcat, fw, impl, authsim, regsim, regcat, regrun
 
 TRUSTED = [
     "Coq 8.16.1 kernel; C02 theorems hold for arbitrary oracles (no cryptographic hypothesis)",
@@ -44,12 +44,18 @@ def run(tier, seed):
                 for ruv in ((False, True) if name in ("up-clear-required", "no-attested-data", "bs-without-be", "rp-id-other") else ((i + rep) % 2 == 1,)):
                     s = regsim.RScn(fmt, kind)
                     s.require_uv = ruv            # every flag-related fault under both user-verification policies
-                    regcat.CEREMONY[name](s, rng)
+                    authcat.apply(regcat.CEREMONY, name, s, scope="reg:")
                     s.faults = [name]
                     pd, reg = regsim.build(s)
                     form = "record" if name in regcat.RECORD_ONLY else rng.choice(regrun.FORMS)
                     B.run_case(regrun.policy_of(pd), reg, form, "reject", f"{name}/{fmt}", scn=s)
         if fmt == "none":
+            for name in names:           # every variant of every entry at least once
+                while authcat.variants_left(name, scope="reg:"):
+                    s = regsim.RScn("none", "ES256-P256")
+                    authcat.apply(regcat.CEREMONY, name, s, scope="reg:")
+                    pd, reg = regsim.build(s)
+                    B.run_case(regrun.policy_of(pd), reg, "record" if name in regcat.RECORD_ONLY else "dict", "reject", f"{name}/{fmt}", scn=s)
             for _ in range(24 if quick else 90):
                 s = regsim.RScn("none", rng.choice(kinds))
                 regcat.none_with_statement(s, rng)
